@@ -141,6 +141,7 @@ type Report struct {
 	Shards    []string       `json:"shards"`
 	Panics    []string       `json:"panics"`
 	seen      map[[32]byte]bool
+	knownSeen map[string]int
 }
 
 // NoteCase records a case for the distinct / non-trivial count.
@@ -164,6 +165,15 @@ func NewReport(kind string, seed uint64) *Report {
 func (r *Report) Count(k string) { r.Dist[k]++ }
 func (r *Report) Eval(pred string, ok bool, c, step int, detail string) {
 	r.PredEvals[pred]++
+	if !ok && strings.Contains(pred, ".K") { // known-finding classes: keep a few witnesses only
+		if r.knownSeen == nil {
+			r.knownSeen = map[string]int{}
+		}
+		r.knownSeen[pred]++
+		if r.knownSeen[pred] > 3 {
+			return
+		}
+	}
 	if !ok && len(r.PredFails) < 200 {
 		r.PredFails = append(r.PredFails, PredFail{c, step, pred, detail})
 	}
